@@ -80,7 +80,7 @@ func main() {
 		},
 		Post: func(c *ev.Check, outs []*run.Outcome) {
 			for _, k := range []string{"archives_verified", "gap.cases_200", "gap.bursts_effective", "gapreg.cases_200", "gapreg.empty_key_archives",
-				"conc.archives_with_concurrent_append", "conc.runs", "rate.decisive_bursts", "rate.status_200", "rate.status_429",
+				"conc.archives_with_concurrent_append", "conc.runs", "rate.decisive_bursts", "rate.staggered_on_schedule", "rate.status_200", "rate.status_429",
 				"verified.reports", "verified.authorizations", "verified.stats_records", "verified.entries", "prefix_checks_after_quiescence", "privkey_scans",
 				"hunt.archives", "statsappend.chased_requests"} {
 				c.Require(k, 1)
@@ -1784,8 +1784,85 @@ func childRate(b run.Batch, r *ev.Result) {
 		}
 		r.Count("rate.bursts", 1)
 	}
+	// Staggered patterns: `early` admitted requests at the start of a window,
+	// limit-early more late in the same window, then a burst just after the
+	// early ones have aged out. A sliding window admits only `early` requests of
+	// that burst; a limiter that forgets requests which are still inside the
+	// window admits up to limit of them. The schedule decides nothing: the
+	// responses go to the same certain-violation interval oracle as all others.
+	nPat := 8
+	if b.Tier == "thorough" {
+		nPat = 24
+	}
+	fire := func(tag int, at time.Time, n int, wg *sync.WaitGroup, firstRecv *atomic.Int64) {
+		for k := 0; k < n; k++ {
+			wg.Add(1)
+			go func() {
+				defer wg.Done()
+				if d := time.Until(at); d > 0 {
+					time.Sleep(d)
+				}
+				st, body, err := w.f.get(tag)
+				if firstRecv != nil {
+					firstRecv.CompareAndSwap(0, int64(time.Since(w.f.base)))
+				}
+				if err != nil {
+					r.Count("rate.errors", 1)
+					return
+				}
+				switch st {
+				case 200:
+					r.Count("rate.status_200", 1)
+					info := w.v.verify(body, w.priv, map[string]interface{}{"kind": "rate-staggered", "pattern": tag})
+					imu.Lock()
+					infos = append(infos, info)
+					imu.Unlock()
+				case http.StatusTooManyRequests:
+					r.Count("rate.status_429", 1)
+				default:
+					r.Count(fmt.Sprintf("rate.status_%d", st), 1)
+				}
+			}()
+		}
+	}
+	limit, window := c.ApiArchiveLimit, c.ApiArchiveRate
+	for pi := 0; pi < nPat && limit >= 2; pi++ {
+		if time.Since(born) > serverLife {
+			r.Count("cut_short_server_life_limit."+b.Kind, 1)
+			break
+		}
+		tag := 1000 + pi
+		early := 1 + pi%(limit-1)
+		late := limit - early
+		burst := limit + rng.Intn(limit+1)
+		// late group at 25 %..92 % of the window after the early responses, burst 0.3..4 ms after the window
+		lateAt := window * time.Duration(25+rng.Intn(68)) / 100
+		burstAfter := time.Duration(300+rng.Intn(3700)) * time.Microsecond
+		time.Sleep(window + time.Duration(10+rng.Intn(20))*time.Millisecond) // empty window first
+		run.Op("rate staggered pattern %d early=%d late=%d at %v burst=%d at window+%v", pi, early, late, lateAt, burst, burstAfter)
+		var wg sync.WaitGroup
+		var firstRecv atomic.Int64
+		fire(tag, time.Now(), early, &wg, &firstRecv)
+		wg.Wait()
+		// every early admission happened before this instant, so a burst sent a window later finds them expired
+		t0 := time.Now()
+		fire(tag, t0.Add(lateAt), late, &wg, nil)
+		fire(tag, t0.Add(window+burstAfter), burst, &wg, nil)
+		wg.Wait()
+		r.Count("rate.staggered_patterns", 1)
+		// could this pattern have shown a certain over-admission? (late group + burst, any status, inside one window)
+		w.f.mu.Lock()
+		recs := append([]rec(nil), w.f.recs...)
+		w.f.mu.Unlock()
+		lo := time.Duration(firstRecv.Load())
+		if m, _ := densest(recs, window, func(x rec) bool { return x.Burst == tag && x.S > lo }); m > limit {
+			r.Count("rate.staggered_on_schedule", 1)
+		} else {
+			r.Count("rate.staggered_slipped", 1)
+		}
+	}
 	judgeRate(w.v, w.f, "rate")
-	r.Sample(map[string]interface{}{"kind": "rate", "burst_sizes": sizes, "limit": c.ApiArchiveLimit, "window": c.ApiArchiveRate.String()})
+	r.Sample(map[string]interface{}{"kind": "rate", "burst_sizes": sizes, "staggered_patterns": nPat, "limit": c.ApiArchiveLimit, "window": c.ApiArchiveRate.String()})
 	closed = true
 	if err := w.Close(); err != nil {
 		r.Note("close: %v", err)
